@@ -359,6 +359,7 @@ public:
       kv(o, "ty", tyStr(CE->getType()));
       if (CE->isElidable()) kvi(o, "elidable", 1);
       if (CE->getConstructor()->isCopyOrMoveConstructor()) kvi(o, "copy", 1);
+      if (CE->isListInitialization()) kvi(o, "listinit", 1);
       std::vector<const Stmt*> args;
       for (const Expr* A : CE->arguments()) args.push_back(A);
       dumpChildList("args", args, o);
